@@ -540,6 +540,9 @@ class Certificate:
         bool
             True if the certificate is valid, False otherwise.
         """
+        # IEEE 1609.2 §6.4.3: the certificate version is 3; it is not covered by the signature
+        if self.certificate.get("version") != 3:
+            return False
         # §6: verifyKeyIndicator must match certificate type
         cert_type = self.certificate.get("type")
         vki = self.certificate.get("toBeSigned", {}).get("verifyKeyIndicator")
